@@ -50,6 +50,18 @@ CLAIMED = {
  "C10": ("Lean 4: SlotInv (slot taken iff exactly one release callback pending, never two) proved for every reachable state by generic preservation over the coroutine interpreter with bespoke lemmas for util.synchronized, future completion and the event-loop step; refusal/no-effect and outcome-independence of the release as separate theorems; differential correspondence of the core model with the real code",
          "C10_slot_inv, C10_refused_no_effect(_plain), C10_accepted_takes_slot, C10_release_whatever_outcome_sync/_async, C10_taken_means_pending, C10_free_when_nothing_pending are proved. That every registered future eventually completes (no lost continuation) is not a theorem; the oracle looks for a wedged slot at every quiescent point of every generated scenario, with requests injected at every progress point of a first operation that succeeds, raises synchronously or fails asynchronously (hooks, exec failures).",
          "DESIGN.md 5 (C10)", CORE_NOTE),
+ "C02": ("Lean 4: theorems about the model of Watcher._stop / reap_processes / manage_processes / spawn_processes (every listed pid is popped by the reap loop; a stopped watcher's manage/reap/spawn are no-ops; stop is idempotent; per-watcher properties are stable under everything that does not write them, by generic preservation) + differential correspondence of the core model with the real code on a simulated kernel",
+         "C02_reap_processes_clears, C02_stop_completes, C02_stopped_no_spawn, C02_stopped_manage_noop, C02_stopped_reap_noop, C02_stop_idempotent and the helper invariants are proved; that a stopped watcher stays without workers across whole histories is checked on the implementation by the oracle at every quiescent point of every generated scenario.",
+         "DESIGN.md 5 (C02)", CORE_NOTE),
+ "C03": ("Lean 4: theorems about the model of Watcher.kill_process (poll count bounds from graceful_timeout, stop signal first, wait while alive, SIGKILL exactly at the timeout and never to a worker that exited, escalation signal is SIGKILL, 100 ms polling) + differential correspondence of the core model with the real code on a simulated kernel with virtual time",
+         "C03_polls_bounds, C03_waits_while_alive, C03_no_sigkill_to_exited, C03_finish_plain, C03_stop_dead_is_silent, C03_sigkill_at_timeout, C03_escalation_is_sigkill, C03_sleep_is_100ms, C03_stop_signal_first are proved for every graceful_timeout and kernel state; signal timing windows and stop_children delivery are additionally checked on the implementation's signal log by the oracle. Known finding F20 (children lost when the signal kills the worker at once).",
+         "DESIGN.md 5 (C03)", CORE_NOTE + " graceful_timeout values for which the float loop `waited += 0.1` and ceil(T/100ms) agree."),
+ "C06": ("Lean 4: daemon side — a reply counter on the ghost log, preserved by every writer except Controller.send_response (generic preservation over the coroutine interpreter), at most one reply per handle_message for every frame, exact replies for malformed frames, the deferred reply of a waiting request; client side — theorems about a model of CircusClient.call / AsyncCircusClient (id filter) + differential correspondence of both models with the real code",
+         "C06_at_most_one_reply, C06_execute_writes_no_reply, C06_waiting_reply, C06_other_callbacks_silent, C06_invalid_json, C06_not_an_object, C06_command_not_a_string, sendReply_exact / _cast_silent; C06_client_* (only own id, first match, timeout, foreign discarded, duplicates ignored, reorder, pending_iff, errors, async same filter). The oracle counts replies per request id on the implementation's control stream in every generated scenario (valid, corrupted and raw frames).",
+         "DESIGN.md 5 (C06)", CORE_NOTE + " zmq framing and socket identities are parameters."),
+ "C14": ("Lean 4: theorems about the model of Watcher.call_hook and its call sites (outcome table incl. ignore-failure, one event per call, before_signal veto never blocks SIGKILL, before_start / before_spawn / after_spawn / after_start gates, stop and after_stop ungated) + differential correspondence of the core model with the real code with scripted hooks",
+         "C14_call_hook_absent, C14_call_hook, C14_outcome_table, C14_signal_vetoed, C14_sigkill_always_sent, C14_before_start_gate, C14_before_spawn_gate, C14_spawn_false_stops, C14_after_start_gate, C14_no_worker_aborts, C14_stop_ungated, C14_after_stop_ungated are proved; the oracle checks hook/event/gate consistency on the implementation's event stream in every generated scenario.",
+         "DESIGN.md 5 (C14)", CORE_NOTE + " Hooks are scripted outcome lists (true / false / raise); the hook body itself is a parameter."),
 }
 NOT_YET = "not decided by the machinery in this revision (model layer not built yet); not claimed"
 NOT_APPLICABLE = {}
